@@ -8,3 +8,4 @@ import r_c11  # noqa: F401
 import r_c18  # noqa: F401
 import r_c03  # noqa: F401
 import r_c12  # noqa: F401
+import r_c17  # noqa: F401
